@@ -8,6 +8,8 @@ class C04Quotient(QuotientWorld):
     prop = "C04"
     hang_is_violation = True
     allow_big = True
+    try_refusals = True
+    refusal_optional = True
 
     def finish(self):
         if self.cfg.get("big") and self.claim_open:
@@ -79,7 +81,7 @@ class C04Quotient(QuotientWorld):
 SPEC = PropSpec(
     prop="C04",
     scenarios=[(1, C04Quotient)],
-    runs={"quick": 5000, "thorough": 120000},
+    runs={"quick": 4000, "thorough": 120000},
     rule=("one run = quotient 3..6, auto_expand on/off, max_load_factor, a universe of <=40 structured 32-bit hashes "
           "(quotients biased to the table end, remainders from a pool of <=7 incl. values whose high bits become "
           "quotient bits after a resize) and <=60 add/remove/resize/merge/toggle steps through add_alt and add(key); "
